@@ -7,6 +7,11 @@ For every list of arguments (positional texts and `key=text` pairs, any texts at
 every position), building the description with `quoteStringArgument` and parsing it with
 `_parse` yields exactly those texts at those positions.
 
+`positional_at` / `keyword_at`: the same per position ("yields exactly that text at that position"): the text is
+`args[i]` / `kw[name]` of the parse whatever arguments surround it (a later argument may re-assign the same name, as in
+Python's dict).  `plugin_roundtrip`: what `serverFromString` / `clientFromString` hand to a plugin parser after taking the
+endpoint name off.
+
 `gen_*`: `quoteStringArgument` is regenerated from endpoints.py on every run (`Generated.Quote`, harness/py2lean.py:
 the for-loop of `str.replace` as a fold) and proved equal to the model's `quote` (`TwistedProps/C46/Gen.lean`).
 -/
@@ -243,6 +248,137 @@ theorem quote_injective (a b : Text) (h : quote a = quote b) : a = b := by
   have ha := tokenize_quote_alone a true
   rw [h, tokenize_quote_alone] at ha
   simpa using ha.symm
+
+/-! ### at that position: one slot of the parse, whatever surrounds it; what the entry points pass on -/
+
+theorem find_map_upd (kw : List (Text × Text)) (k k' v : Text) :
+    (kw.map fun p => if p.1 = k' then (k', v) else p).find? (·.1 = k) =
+      (kw.find? (·.1 = k)).map fun p => if p.1 = k' then (k', v) else p := by
+  rw [List.find?_map]
+  have : ((fun x : Text × Text => decide (x.1 = k)) ∘ fun p => if p.1 = k' then (k', v) else p) =
+      fun x => decide (x.1 = k) := by
+    funext p
+    by_cases h : p.1 = k' <;> simp [h]
+  rw [this]
+
+theorem kwGet_kwSet_same (kw : List (Text × Text)) (k v : Text) : kwGet (kwSet kw k v) k = some v := by
+  unfold kwGet kwSet
+  by_cases hany : kw.any (·.1 = k) = true
+  · simp only [hany, if_true]
+    rw [find_map_upd]
+    obtain ⟨x, hx, hxk⟩ := List.any_eq_true.mp hany
+    cases hf : kw.find? (·.1 = k) with
+    | none =>
+      have := List.find?_eq_none.mp hf x hx
+      exact absurd hxk this
+    | some y =>
+      have hy := List.find?_some hf
+      simp only [decide_eq_true_eq] at hy
+      simp [hy]
+  · simp only [hany]
+    simp only [Bool.not_eq_true] at hany
+    have hnone : kw.find? (·.1 = k) = none := by
+      apply List.find?_eq_none.mpr
+      intro x hx
+      have := List.any_eq_false.mp hany x hx
+      simpa using this
+    simp [List.find?_append, hnone]
+
+theorem kwGet_kwSet_other (kw : List (Text × Text)) (k k' v : Text) (h : k' ≠ k) :
+    kwGet (kwSet kw k' v) k = kwGet kw k := by
+  unfold kwGet kwSet
+  split
+  · rw [find_map_upd]
+    cases hf : kw.find? (·.1 = k) with
+    | none => rfl
+    | some y =>
+      have hy := List.find?_some hf
+      simp only [decide_eq_true_eq] at hy
+      have : ¬ y.1 = k' := fun e => h (e ▸ hy)
+      simp [this]
+  · simp only [List.find?_append]
+    cases kw.find? (·.1 = k) <;> simp [h]
+
+def positionals : List Item → List Text
+  | [] => []
+  | .pos t :: is => t :: positionals is
+  | .kw _ _ :: is => positionals is
+
+theorem foldl_args (items : List Item) (p : Parsed) :
+    (items.foldl applyItem p).args = p.args ++ positionals items := by
+  induction items generalizing p with
+  | nil => simp [positionals]
+  | cons i is ih => cases i <;> simp [applyItem, positionals, ih]
+
+/-- **at that position (positional)**: whatever arguments come before and after, the quoted text `t` placed as a
+    positional argument is `args[i]`, `i` = the number of positional arguments before it. -/
+theorem positional_at (pre post : List Item) (t : Text)
+    (hk : ∀ i ∈ pre ++ Item.pos t :: post, wfItem i) (ha : ∀ i ∈ pre ++ Item.pos t :: post, asciiKey i) :
+    ∃ p, parse (describe (pre ++ Item.pos t :: post)) = .ok p ∧
+      select p (.arg (positionals pre).length) = some t := by
+  refine ⟨_, roundtrip _ (by simp) hk ha, ?_⟩
+  simp [select, List.foldl_append, foldl_args, applyItem]
+
+def keyOf : Item → Option Text
+  | .pos _ => none
+  | .kw k _ => some k
+
+theorem foldl_kwGet_other (items : List Item) (p : Parsed) (k : Text)
+    (h : ∀ i ∈ items, keyOf i ≠ some k) :
+    kwGet (items.foldl applyItem p).kw k = kwGet p.kw k := by
+  induction items generalizing p with
+  | nil => rfl
+  | cons i is ih =>
+    have hi := h i (by simp)
+    rw [List.foldl_cons, ih _ (fun x hx => h x (by simp [hx]))]
+    cases i with
+    | pos t => rfl
+    | kw k' t =>
+      have : k' ≠ k := fun e => hi (by simp [keyOf, e])
+      simp [applyItem, kwGet_kwSet_other _ _ _ _ this]
+
+/-- **at that position (keyword)**: the quoted text `t` placed as `k=t` is `kw[k]`, whatever comes before, and whatever
+    comes after that does not assign the same name again. -/
+theorem keyword_at (pre post : List Item) (k t : Text)
+    (hk : ∀ i ∈ pre ++ Item.kw k t :: post, wfItem i) (ha : ∀ i ∈ pre ++ Item.kw k t :: post, asciiKey i)
+    (hpost : ∀ i ∈ post, keyOf i ≠ some k) :
+    ∃ p, parse (describe (pre ++ Item.kw k t :: post)) = .ok p ∧ select p (.key k) = some t := by
+  refine ⟨_, roundtrip _ (by simp) hk ha, ?_⟩
+  simp only [select, List.foldl_append, List.foldl_cons]
+  rw [foldl_kwGet_other _ _ _ hpost]
+  simp [applyItem, kwGet_kwSet_same]
+
+theorem foldl_cons_arg (items : List Item) (x : Text) (as : List Text) (kw : List (Text × Text)) :
+    items.foldl applyItem ⟨x :: as, kw⟩ =
+      ⟨x :: (items.foldl applyItem ⟨as, kw⟩).args, (items.foldl applyItem ⟨as, kw⟩).kw⟩ := by
+  induction items generalizing as kw with
+  | nil => rfl
+  | cons i is ih => cases i <;> simp [applyItem, ih]
+
+/-- **what a plugin parser receives** (`serverFromString`: `plugin.parseStreamServer(reactor, *args[1:], **kw)`;
+    `clientFromString`: `args.pop(0)` then `plugin.parseStreamClient(reactor, *args, **kwargs)`): after the endpoint name
+    the quoted arguments, exactly — for every argument list, the empty one included. -/
+theorem plugin_roundtrip (name : Text) (items : List Item)
+    (hk : ∀ i ∈ items, wfItem i) (ha : ∀ i ∈ items, asciiKey i) :
+    dropName (parse (describe (Item.pos name :: items))) = .ok (items.foldl applyItem ⟨[], []⟩) := by
+  rw [roundtrip _ (by simp)]
+  · simp only [List.foldl_cons, applyItem, List.nil_append, foldl_cons_arg, dropName, Except.map]
+    simp
+  · intro i hi
+    rcases List.mem_cons.mp hi with rfl | hi
+    · simp [wfItem]
+    · exact hk i hi
+  · intro i hi
+    rcases List.mem_cons.mp hi with rfl | hi
+    · simp [asciiKey]
+    · exact ha i hi
+
+example : (match parse (describe [Item.pos ['u'], Item.kw ['m'] ['6'], Item.pos [':', '\\', '='], Item.kw ['k'] []]) with
+    | .ok p => select p (.arg 1) == some [':', '\\', '='] && select p (.key ['k']) == some [] && select p (.arg 2) == none
+    | .error _ => false) = true := by decide
+example : (match dropName (parse (describe [Item.pos ['f'], Item.pos [], Item.kw ['k'] ['=']])) with
+    | .ok p => p.args == [[]] && p.kw == [(['k'], ['='])]
+    | .error _ => false) = true := by decide
 
 /-! ### the translator-regenerated `quoteStringArgument` (see `TwistedProps/C46/Gen.lean`) -/
 
